@@ -8,6 +8,7 @@ from specs import leb128 as L
 
 DEX = "androguard/core/dex/__init__.py"
 META = {
+    "technique": 'contract-based deductive verification: symbolic execution of the real functions against sidecar contracts (z3/cvc5) for the proved units; bounded contract evaluation (enumerated scope / independent writer) for the rest',
     "level": "other",
     "partial": True,
     "level_text": "Proof (parsers, symbolic bytes): TryItem.__init__, EncodedTypeAddrPair.__init__, EncodedCatchHandler.__init__ "
